@@ -50,6 +50,9 @@ K1Shape == \E t \in Thread :
 LinearizableOrK1 == AllDone => (Linearizable \/ K1Shape)
 StrictLinearizable == AllDone => Linearizable
 NoResidue == AllDone => mark = {}
+\* every terminal outcome of the model (results + final abstract store), for comparison with
+\* the outcomes the harness observed from the real code on the same scenario
+DumpOutcome == AllDone => PrintT("OUT " \o ToJson([res |-> result, st |-> Abs]))
 
 \* Readers take no lock and are not promised linearizability; what C09 / C10 promise them is
 \* that they are served the COMPLETE RIGHT bytes or an error, never something else
